@@ -17,6 +17,18 @@ for g in groups:
             u = next(x for x in w.units if x['unit'] == lb['unit'])
             for p in u.get('props_internal', []):
                 labels.setdefault(p, set()).add((g, lb['label']))
+# how many instances of each proof aid (closure contracts keyed by parameter text match every closure with those parameters) are woven on
+# the unchanged tree: when a change ADDS a closure with the same parameter text, the extra instance that does not type-check is dropped
+# without compromising the unit, as long as this many instances still fit
+import collections
+aid_counts = {}
+for g in groups:
+    w = Weaver('/repo').weave(g)
+    for u in w.units:
+        if u.get('mode') == 'verify' and u.get('aids'):
+            c = collections.Counter(re.sub(r'#\d+$', '', a[0]) for a in u['aids'])
+            aid_counts[u['unit']] = dict(c)
+json.dump(aid_counts, open(os.path.join(VERIF, 'contracts', 'aid_counts.json'), 'w'), indent=1, sort_keys=True)
 inv = {}
 for p, P in PROPS.items():
     gs = set(P.get('verus_groups', []))
